@@ -331,6 +331,8 @@ class Evaluator(object):
         self.steps = 0
         self.asserts = []  # AssertRec
         self.calls = []  # (caller key, callee path, span) of opaque calls
+        self.neutral_crates = set()  # crates whose opaque calls do not advance the world token (see C18)
+        self.local_names = {}  # oid of a frame local -> (function def path, source variable name or None)
         self.overrides = {}  # def path or key -> handler(ev, st, callee, args, argops, dest_ty) -> value
         self.no_inline = set()  # body keys / def paths kept opaque
         self.chain = []
@@ -902,6 +904,9 @@ class Evaluator(object):
             locs.append(st.alloc(None, "l"))
         for i, a in enumerate(args):
             st.objs[locs[i + 1]] = a
+        nm = body["names"]
+        for i, l in enumerate(locs):
+            self.local_names[l] = (body["def"], nm.get(str(i)))
         fr = Frame(body, locs, self.cfg_of(body), depth)
         self.chain.append(key)
         try:
@@ -918,6 +923,7 @@ class Evaluator(object):
         rv = st.objs[locs[0]]
         for l in locs:
             st.objs.pop(l, None)
+            self.local_names.pop(l, None)
         return rv if rv is not None else UNIT
 
     def call_pure(self, st, key, args, depth):
